@@ -99,7 +99,23 @@ CONFIGS = [
     # the reads in two files of one experiment (grouped by file name automatically): every second 3-kb window of a chromosome is covered
     # by the second file only
     ("two-files", True, "nanopore", ["--count_exons", "--bam_tags", "XQ,CB"]),
+    # the same two files as two EXPERIMENTS of one invocation (a --bam_list file): what the second one prints must not depend on whether
+    # the first one was processed by the same process (--threads 1) or by workers that are gone (--threads 2)
+    ("two-experiments", True, "nanopore", ["--count_exons"]),
 ]
+
+
+def results_of(cfg, out):
+    """{file: normalised bytes} of a run of configuration cfg"""
+    from vlib import run
+    if CONFIGS[cfg][0] != "two-experiments":
+        return run.read_tree(os.path.join(out, "OUT"))
+    t = {}
+    for e in ("E1", "E2"):
+        for k, v in run.read_tree(os.path.join(out, e)).items():
+            t["%s/%s" % (e, k.replace(e + ".", "OUT."))] = v
+    return t
+
 
 
 def split_bam(bam):
@@ -147,6 +163,13 @@ def argv_for(cfg, paths, out, threads=1, more=()):
     if name == "two-files":
         i = av.index("--bam")
         av[i + 1:i + 2] = list(split_bam(paths["bam"]))
+    if name == "two-experiments":
+        a, b = split_bam(paths["bam"])
+        lst = paths["bam"][:-4] + ".list"
+        with open(lst, "w") as f:
+            f.write("#E1\n%s\n#E2\n%s\n" % (a, b))
+        i = av.index("--bam")
+        av[i:i + 2] = ["--bam_list", lst]
     return av
 
 
@@ -162,7 +185,7 @@ def base_and_variants(args):
     rc = run.run_isoquant(argv_for(cfg, paths, base_out), paths["home"], os.path.join(d, "base.txt"), pre_hook=cfg_hook(cfg))
     if rc != 0:
         return [("base", [("run", "base run failed rc=%d %s" % (rc, open(os.path.join(d, "base.txt")).read()[-300:]))])], 1
-    t0 = run.read_tree(os.path.join(base_out, "OUT"))
+    t0 = results_of(cfg, base_out)
     res = []
     n = 1
     for v in variants:
@@ -178,7 +201,7 @@ def base_and_variants(args):
             if rc != 0 or rc2 != 0:
                 res.append((v, [("run", "exit %d / %d" % (rc, rc2))]))
                 continue
-            df = diff_trees(t0, run.read_tree(os.path.join(out, "OUT")))
+            df = diff_trees(t0, results_of(cfg, out))
             if df:
                 res.append((v, df))
             continue
@@ -186,12 +209,12 @@ def base_and_variants(args):
             # the SAME command line a second time (same output path, so that even the command-line header is equal): every file is
             # compared byte by byte, the gzipped ones included (their headers carry a time stamp unless the writer suppresses it)
             import time
-            raw0 = raw_tree(os.path.join(base_out, "OUT"))
+            raw0 = raw_tree(os.path.join(base_out, "OUT" if CONFIGS[cfg][0] != "two-experiments" else "E2"))
             shutil.rmtree(base_out, ignore_errors=True)
             time.sleep(1.1)
             rc = run.run_isoquant(argv_for(cfg, paths, base_out), paths["home"], os.path.join(d, "v.txt"), pre_hook=cfg_hook(cfg))
             n += 1
-            raw1 = raw_tree(os.path.join(base_out, "OUT")) if rc == 0 else {}
+            raw1 = raw_tree(os.path.join(base_out, "OUT" if CONFIGS[cfg][0] != "two-experiments" else "E2")) if rc == 0 else {}
             df = [(k, "raw bytes differ between two runs of the same command line (first difference at byte %d)" %
                    next((i for i, (a, b) in enumerate(zip(raw0.get(k, b""), raw1.get(k, b""))) if a != b), min(len(raw0.get(k, b"")), len(raw1.get(k, b"")))))
                   for k in sorted(set(raw0) | set(raw1)) if raw0.get(k) != raw1.get(k)]
@@ -229,7 +252,7 @@ def base_and_variants(args):
         if rc != 0:
             res.append((v, [("run", "exit %d: %s" % (rc, open(os.path.join(d, "v.txt")).read()[-300:]))]))
             continue
-        t1 = run.read_tree(os.path.join(out, "OUT"))
+        t1 = results_of(cfg, out)
         df = diff_trees(t0, t1)
         if df:
             res.append((v, df))
@@ -257,7 +280,7 @@ def plain_tree(args):
     paths = syn.materialise(w, d)
     out = os.path.join(d, "out")
     rc = run.run_isoquant(argv_for(cfg, paths, out), paths["home"], os.path.join(d, "o.txt"), pre_hook=cfg_hook(cfg))
-    t = run.read_tree(os.path.join(out, "OUT")) if rc == 0 else None
+    t = results_of(cfg, out) if rc == 0 else None
     shutil.rmtree(d, ignore_errors=True)
     return t
 
@@ -289,7 +312,7 @@ def permset_worker(args):
             msg = open(os.path.join(d, "o.txt")).read()[-400:]
             shutil.rmtree(d, ignore_errors=True)
             return "record", None, None, "baseline under PERMSET failed rc=%d %s" % (rc, msg)
-        tree = run.read_tree(os.path.join(out, "OUT"))
+        tree = results_of(cfg, out)
         choices = json.load(open(rec_file))
         shutil.rmtree(d, ignore_errors=True)
         return "record", tree, choices, None
@@ -304,7 +327,7 @@ def permset_worker(args):
         if rc != 0:
             results.append((dev, [("run", "exit %d: %s" % (rc, open(os.path.join(d, "o.txt")).read()[-300:]))]))
             continue
-        df = diff_trees(t0, run.read_tree(os.path.join(out, "OUT")))
+        df = diff_trees(t0, results_of(cfg, out))
         if df:
             results.append((dev, df))
     shutil.rmtree(d, ignore_errors=True)
@@ -329,7 +352,7 @@ def seed_sweep(args):
         if r.returncode != 0:
             errs.append((seed, [("run", "exit %d: %s" % (r.returncode, (r.stdout + r.stderr)[-300:]))]))
             continue
-        trees[seed] = run.read_tree(os.path.join(out, "OUT"))
+        trees[seed] = results_of(cfg, out)
         shutil.rmtree(out, ignore_errors=True)
     shutil.rmtree(d, ignore_errors=True)
     return trees, errs
@@ -442,7 +465,7 @@ def run(ctx):
     quick = ctx.tier == "quick"
     n_chr = 3 if quick else 4
     tot = dict(states=0, runs=0, seeds=0, schedules=0, modes=0, gorders=0, ncp=0, nperm=0)
-    cfgs = [0, 1, 3, 4] if quick else [0, 1, 2, 3, 4]
+    cfgs = [0, 1, 3, 4, 5] if quick else [0, 1, 2, 3, 4, 5]
     for cfg in cfgs:
         explore_config(ctx, cfg, n_chr, quick, tot)
     parts = tot["parts"]
